@@ -229,6 +229,22 @@ pub fn run(tier: Tier) -> i32 {
             }
             alphas.push(json!({"lang": l.code(), "new_source_literals_explored": news}));
         }
+        // runs: a small number, the same symbol repeated r times (every r up to 40), a small number
+        {
+            let c = vocab::cls(l);
+            let mut acc_runs = Acc::new();
+            for x in a2.iter().chain([c.linking.clone(), ",".to_string(), c.ordinary.clone(), " ".to_string()].iter()) {
+                for (first, last) in [(&c.one, &c.unit), (&c.small_ord, &c.small_ord), (&c.tens, &c.one)] {
+                    for r in 1..=40usize {
+                        let mut syms: Vec<&str> = vec![first.as_str()];
+                        syms.extend(std::iter::repeat(x.as_str()).take(r));
+                        syms.push(last.as_str());
+                        one_stream(&ctx, &mut acc_runs, l, &lang, &syms);
+                    }
+                }
+            }
+            total.merge(acc_runs);
+        }
         // near misses of the linking words (an added or dropped final letter, a plural): ordinary words, so they
         // break the sequence — unless the result is itself a linking word or a number word
         {
@@ -236,7 +252,7 @@ pub fn run(tier: Tier) -> i32 {
             let list = vocab::linking_words(l);
             let mut near: Vec<String> = vec![];
             for w in list {
-                let mut cands = vec![format!("{w}s"), format!("{w}e"), format!("{w}n")];
+                let mut cands = vec![format!("{w}s"), format!("{w}e"), format!("{w}n"), format!("{w}-xyzzy"), format!("xyzzy-{w}")];
                 if w.chars().count() > 2 {
                     let mut x = w.to_string();
                     x.pop();
@@ -244,7 +260,7 @@ pub fn run(tier: Tier) -> i32 {
                 }
                 for cand in cands {
                     let is_num = matches!(guard(|| text2num::text2digits(&cand, &lang)), Ok(Ok(_)));
-                    if !is_num && !list.contains(&cand.as_str()) && cand != l.conj() && cand != l.sep() && !near.contains(&cand) && cand.chars().all(|ch| ch.is_alphabetic()) {
+                    if !is_num && !list.contains(&cand.as_str()) && cand != l.conj() && cand != l.sep() && !near.contains(&cand) && cand.chars().all(|ch| ch.is_alphabetic() || ch == '-') && !w.contains(' ') {
                         near.push(cand);
                     }
                 }
